@@ -9,6 +9,7 @@ path; (Z.split) DoSplitOp invokes the callback before storing the point;
 (Z.setz-table) SetZ's own decision table.  That the vertex a callback saw is
 the one that survives CleanCollinear is NOT decided.
 """
+from ..extract import AnalysisBroken
 from ..astq import AstDB
 from ..engines import e6_siblings as e6
 from ..engines import e7_zaccount as e7
@@ -28,6 +29,8 @@ def run(chk):
              "(4 cells); every Execute overload calls CheckCallback before ExecuteInternal")
     chk.rule("Z.out-point-fresh", "[USINGZ] every destination of GetSegmentIntersectPt (which assigns x and y only) is a local declared inside every "
              "loop enclosing the call: no new vertex inherits the z a variable kept from an earlier iteration")
+    chk.rule("Z.carry", "[USINGZ] conversion layer (ScalePath(s), BuildPath64/D, PolyPath64/D, C export converters): a vertex built from the x and y of one "
+             "source vertex has a z argument - converted, scaled or copied vertices keep their z")
     chk.rule("Z.split", "DoSplitOp: zCallback_ is invoked on ip before ip is stored into an OutPt")
     chk.rule("Z.setz-table", "SetZ: ip equal to an end point takes its z (subject edge first), else DefaultZ; callback gets subject before clip")
     for b, z in pairs:
@@ -38,6 +41,8 @@ def run(chk):
         e7.rule_setz_table(dz, chk, z)
         e7.rule_zcb_rebound(dz, chk, z)
         e7.rule_out_point_fresh(dz, chk, z)
+        if e7.rule_z_carry(dz, chk, z) < 3:
+            raise AnalysisBroken("Z.carry: fewer than 3 vertex constructions from one source vertex in the conversion layer (%s)" % z)
     n = len(pairs)
     chk.floor("ZERASE", 450 * n)
     chk.floor("ZERASE.z-only-function", 6 * n)
